@@ -86,9 +86,9 @@ def build_native(ROOT, REPO, spec, entry, defines, bdir, kind, hdr_hash):
             # always the freshly compiled ones
             tail = ['-Wl,--allow-multiple-definition'] + rest + ['-lxml2', '-lelf', '-ldw', '-lpthread']  # harness stubs come first and win
         elif os.path.exists(os.path.join(lib, 'libabigail.so')):
-            tail = ['-L' + lib, '-Wl,-rpath,' + lib, '-labigail']
+            tail = ['-Wl,--allow-multiple-definition', '-L' + lib, '-Wl,-rpath,' + lib, '-labigail']
         else:
-            tail = ['-no-pie', '-Wl,--unresolved-symbols=ignore-all', '-Wl,-z,lazy']
+            tail = ['-no-pie', '-Wl,--allow-multiple-definition', '-Wl,--unresolved-symbols=ignore-all', '-Wl,-z,lazy']
     else:
         cs += [os.path.join(bdir, 'unit.c')] + [os.path.join(models, m + '.c') for m in mods]
         objs = []
